@@ -1,8 +1,8 @@
 From Coq Require Extraction.
 From Coq Require Import ExtrOcamlBasic.
-From H3V Require Import Base.Bytes Spec.GoawaySpec Model.Varint Model.Goaway.
+From H3V Require Import Base.Bytes Spec.GoawaySpec Model.Varint Model.Goaway Model.GoawayWrite.
 Extraction Language OCaml.
 Extraction "C08_model.ml"
   N.add N.mul N.div_eucl N.ltb N.leb N.eqb
-  gstep gstate0 cstep client0
+  gstep gstate0 wstep wstate0 cstep client0
   rfc_client_step rcl0 mon0 mon_step mon_run mon_fail_at line_okb.
